@@ -191,7 +191,7 @@ func (fp *FakePeer) Dial() (*ConnEnd, error) {
 		return nil, err
 	}
 	ce := c.(*ConnEnd)
-	if h := LabelHeader(fp.rig.SCfg.Label); h != nil {
+	if h := LabelHeader(fp.rig.SCfg.Label); h != nil && !fp.rig.NoHeader {
 		_, _ = ce.Write(h)
 	}
 	return ce, nil
